@@ -1,9 +1,5 @@
-SPECIFICATION Spec
+SPECIFICATION SpecSplit
 CONSTANTS f1 = f1 f2 = f2 f3 = f3 f4 = f4 t1 = t1 t2 = t2 t3 = t3
 CONSTANTS Files <- MCFiles  Outcome <- MCOutcome  Threads <- MCThreads2
-INVARIANT ExactlyOnce
-INVARIANT Union
-INVARIANT PerFileOrder
-INVARIANT Tally
-PROPERTY Terminates
 CHECK_DEADLOCK FALSE
+INVARIANT Tally
